@@ -30,7 +30,6 @@ import (
 	"encoding/hex"
 	"fmt"
 	"math/rand/v2"
-	"os"
 	"runtime"
 	"strings"
 	"time"
@@ -731,20 +730,6 @@ func (mo *monitor) runSeq(c *Case, cl *stack.Client) {
 			}
 			after := cache.VerifC05WireCounters()
 			p.Rung = rungOf(before, after)
-			if os.Getenv("C06_DEBUG") != "" && c.Kind == os.Getenv("C06_DEBUG") {
-				dd := map[string]int64{}
-				for k, v := range after {
-					if v != before[k] {
-						dd[k] = v - before[k]
-					}
-				}
-				rm := new(dns.Msg)
-				if reply != nil {
-					_ = rm.Unpack(reply)
-				}
-				fmt.Fprintf(os.Stderr, "DBG %d %s %s %s/%s q=%s cd=%v state=%s rung=%s d=%v rcode=%d an=%d ns=%d ad=%v\n", c.Index, c.UpstreamDesc, s.Phase, p.Entry, p.Transport,
-					q.Name, q.CD, p.State, p.Rung, dd, rm.Rcode, len(rm.Answer), len(rm.Ns), rm.AuthenticatedData)
-			}
 			if note != "" {
 				r.Count("outcome/"+p.Entry+"/"+note, 1)
 			}
@@ -835,9 +820,41 @@ func runSequences(r *vlib.Run, ci int) int {
 	cl := mo.st.NewClient("127.67.0.1")
 	cl.Timeout = 4 * time.Second
 	defer cl.Close()
-	wire0 := cache.VerifC05WireCounters()
 	total := 0
 	batches := r.N(1, 40)
+
+	// Wire-born pairs first: the ordinary (query, upstream response) pairs and
+	// UDP size cases, eight clients at once, on this stack — where nothing
+	// decodes a request ahead of the cache, so repeated questions are answered
+	// by the cache's byte ladder with whatever the upstream response held.
+	wire0 := cache.VerifC05WireCounters()
+	for batch := 0; batch < batches; batch++ {
+		rng := r.RandN("wireborn", ci*1000+batch)
+		idx := ci*10_000_000 + 7_000_000 + batch*1000
+		var cases []*Case
+		for i := 0; i < 260; i++ {
+			idx++
+			cases = append(cases, genPairCase(rng, idx, ci, i%workers))
+		}
+		for i := 0; i < 60; i++ {
+			idx++
+			cases = append(cases, genSizeCase(rng, idx, ci, i%workers))
+		}
+		for _, c := range cases {
+			c.Kind = "wireborn/" + c.Kind
+		}
+		mo.runAll(cases)
+		total += len(cases)
+	}
+	if !mo.st.Quiesce(5 * time.Second) {
+		r.Inconclusive("sequence stack did not quiesce after the wire-born pairs")
+	}
+	wireMid := cache.VerifC05WireCounters()
+	for _, k := range []string{"served", "chase_served", "fallback", "skip_chase", "skip_dnssec", "skip_size", "skip_entry", "skip_writer"} {
+		r.Count("wireborn/cache_wire/"+k, int(wireMid[k]-wire0[k]))
+	}
+
+	wire0 = cache.VerifC05WireCounters()
 	for batch := 0; batch < batches; batch++ {
 		rng := r.RandN("sequences", ci*1000+batch)
 		idx := ci*10_000_000 + 5_000_000 + batch*1000
@@ -886,6 +903,7 @@ func requireSequences(r *vlib.Run) {
 		r.Count("seq/shapes/"+rung, countSeqShapes(rung))
 	}
 	// the cache's own counters (process-global deltas over the sequence stacks)
+	r.Require("wireborn/cache_wire/served", 400)
 	r.Require("seq/cache_wire/chase_served", 1000)
 	r.Require("seq/cache_wire/served", 1500)
 	r.Require("seq/cache_wire/cut_served", 60)
